@@ -229,7 +229,7 @@ func C09(r *vf.Run) {
 
 	if r.Phase("random-headers") {
 		chunks := r.N(60, 3000)
-		vf.Parallel(runtime.NumCPU(), chunks, func(w, ci int) {
+		r.Parallel(runtime.NumCPU(), chunks, func(w, ci int) {
 			g := r.Rand("random").Fork(uint64(ci))
 			bf := newBufs(g)
 			for k := 0; k < 1000 && !r.TooMany(); k++ {
